@@ -4,12 +4,10 @@ ENGINES = [
 ]
 PENDING = {
  "C01":"check under construction in this session (planned: cluster-sim exploration, DESIGN.md section 3)",
- "C03":"check under construction in this session (planned: cluster-sim exploration, DESIGN.md section 3)",
  "C04":"check under construction in this session (planned: wire-adversary fault enumeration, DESIGN.md section 3)",
  "C06":"check under construction in this session (planned: history simulation, DESIGN.md section 3)",
  "C07":"check under construction in this session (planned: paired replay on the randomness seam, DESIGN.md section 3)",
  "C09":"check under construction in this session (planned: two-party runs with wire faults, DESIGN.md section 3)",
- "C10":"check under construction in this session (planned: cluster-sim exploration, DESIGN.md section 3)",
 }
 CHECKS = {
  "C11": {"engine":"cluster-sim (macro-step)","level":"exploration",
@@ -17,4 +15,14 @@ CHECKS = {
   "design_ref":"DESIGN.md section 3 C11, section 2.2-2.4",
   "note":"Trusted: testing/synctest quiescence detection, the harness's reference mailbox model (written from the Router documentation), the simulated Delivery. Macro-step explores interleavings at quiescence granularity only.",
   "technique":"deterministic simulation with fault injection (seeded schedule/fault search, reference-model oracle, replayable decision traces)"},
+ "C03": {"engine":"cluster-sim (macro-step)","level":"exploration",
+  "text":"Seeded simulated key generations (Gennaro with three NIZK compilers, Canetti, trusted dealer; seven groups; five access-structure families generated together with an independent reference predicate) run through the real session and DKG runners over the simulated network with reordering, duplication, redelivery and foreign injection; the outcome is judged by reference linear algebra and reference curve arithmetic over every subset of holders, and shards are persisted, crashed and reloaded on a simulated disk with and without storage faults. Sampling over configurations and schedules is the right level: the property quantifies over structures, groups, ids, seeds and delivery orders.",
+  "design_ref":"DESIGN.md section 3 C03",
+  "note":"Trusted: math/big reference arithmetic and Gaussian elimination in /verif/ref, the policy evaluators in checks/access.go, testing/synctest. BLS12-381 G2 uses the library's own scalar multiplication for the final comparison (semi-independent).",
+  "technique":"deterministic simulation with fault injection (seeded schedule/fault search over real DKG runners, reference-model oracle, simulated disk crash/reload)"},
+ "C10": {"engine":"cluster-sim (macro-step)","level":"exploration",
+  "text":"Seeded simulated session setups through the real runner (echo broadcast included) under reordering, duplication, redelivery and injection, with the full symmetry / separation / zero-sum oracle over every sub-quorum, and single-leaf tampering of setup messages by one corrupt party.",
+  "design_ref":"DESIGN.md section 3 C10",
+  "note":"Trusted: testing/synctest, the harness oracle; inequality checks assume SHA-3 collision resistance.",
+  "technique":"deterministic simulation with fault injection (seeded schedule/fault search, wire adversary on one party's link)"},
 }
